@@ -128,6 +128,18 @@ def replay(mods, scn, cse=None):
             scw = float(adapter.score(X, sample_weight=np.ones(T1.size)))
             if not (abs(scw - sc) <= 1e-9 * max(1.0, abs(sc))):
                 bad("score-unit-weights", expected=sc, observed=scw)
+            # the caller's arrays belong to the caller: a weight vector handed in twice gives the same score twice and is not
+            # written to; neither is the data matrix
+            w = np.linspace(0.5, 1.5, T1.size)
+            w0, X0 = w.copy(), X.copy()
+            s1 = float(adapter.score(X, sample_weight=w))
+            s2 = float(adapter.score(X, sample_weight=w))
+            if not np.array_equal(w, w0):
+                bad("score-modified-sample-weight", expected=w0.tolist(), observed=w.tolist())
+            if s1 != s2:
+                bad("score-not-repeatable-with-weights", expected=s1, observed=s2)
+            if not np.array_equal(X, X0):
+                bad("data-matrix-modified", expected=X0.tolist(), observed=X.tolist())
         # (5) by hand on the exported filter, in the plan's order
         plan0 = [({c: fl(q) for c, q in named(st["u"]).items()}, {key: {r: fl(q) for r, q in st["z"][key].items()} for key in st["keyorder"]}) for st in rows]
 
